@@ -51,6 +51,7 @@ type gctx struct {
 	accVarValue                                            map[string]string
 	nvar                                                   int
 	noKept                                                 int
+	savedAcc, savedAsset                                   string
 	excluded                                               int
 }
 
@@ -360,6 +361,10 @@ func (g *gctx) destAccount() Expr {
 	if rapid.IntRange(0, 7).Draw(g.t, "destWorld") == 0 {
 		return LitAccount{"world"}
 	}
+	if g.savedAcc != "" && rapid.IntRange(0, 2).Draw(g.t, "destSaved") == 0 {
+		g.label("revisit-saved-account")
+		return g.accountExpr(g.savedAcc)
+	}
 	return g.accountExpr(rapid.SampledFrom(append([]string{"d1", "d2"}, accPool...)).Draw(g.t, "dstAcc"))
 }
 
@@ -421,6 +426,9 @@ func (g *gctx) dest(depth int, asset string, hint *big.Int) Dest {
 
 func (g *gctx) send() Send {
 	asset := rapid.SampledFrom(assetPool).Draw(g.t, "sendAsset")
+	if g.savedAsset != "" && rapid.Bool().Draw(g.t, "sendSavedAsset") {
+		asset = g.savedAsset
+	}
 	isAll := rapid.IntRange(0, 6).Draw(g.t, "sendAll") == 0
 	s := Send{DestFirst: rapid.IntRange(0, 3).Draw(g.t, "destFirst") == 0}
 	var info srcInfo
@@ -568,7 +576,10 @@ func (g *gctx) otherStmt() Stmt {
 	default:
 		g.label("stmt:save")
 		asset := rapid.SampledFrom(assetPool).Draw(g.t, "saveAsset")
-		acc := g.accountExpr(rapid.SampledFrom(accPool).Draw(g.t, "saveAcc"))
+		accName := rapid.SampledFrom(accPool).Draw(g.t, "saveAcc")
+		acc := g.accountExpr(accName)
+		// later statements come back to the saved account and asset more often than chance would have it
+		g.savedAcc, g.savedAsset = accName, asset
 		if rapid.IntRange(0, 2).Draw(g.t, "saveAll") == 0 {
 			return Save{AllAsset: g.assetExpr(asset), Acc: acc}
 		}
